@@ -464,6 +464,7 @@ class NetworkMixin(RadioMixin):
         if not self._validate_msg_len(len(message)):
             message = message[:MAX_FRAG_SIZE]
         level = self._net_lvl if level is None else min(4, max(level, 0))
+        self.frame_buf = RF24NetworkFrame()  # a new message needs a new frame_id
         self.frame_buf.header.to_node = NETWORK_MULTICAST_ADDR
         self.frame_buf.header.from_node = self._addr
         message_type = (
